@@ -146,3 +146,26 @@ contract('gnpy.core.elements.Fiber.beta2', name='gnpy.core.elements.Fiber.beta2[
                                     '-((c0 / frequency[i]) ** 2 * ((frequency[i] / p._f_dispersion_ref) ** 2 * p._dispersion[0])) / (2 * pi * c0), '
                                     'len(frequency)))')],
          use_at_calls=False, modifies=[])
+
+# ---- per-frequency loss tables: the table is read at the frequencies the caller asks for (the interpolation itself is scipy's)
+from .c_fiber import FPARAMS
+FPARAMS_TAB = obj('FiberParams', **{**FPARAMS.fields, '_loss_coef': vec('mtab', lo=2), '_f_loss_ref': vec('mtab', lo=2)})
+FIBER_TAB = obj('Fiber', **{**FIBER.fields, 'params': FPARAMS_TAB})
+contract('gnpy.core.elements.Fiber.interpolate_parameter_over_spectrum',
+         name='gnpy.core.elements.Fiber.interpolate_parameter_over_spectrum[call-site summary]', trusted=True, props=[],
+         params={'self': FIBER_TAB, 'parameter': vec('mtab', lo=2), 'ref_frequency': vec('mtab', lo=2), 'spectrum_frequency': vec('n'),
+                 'name': string()},
+         ensures=[], returns=vec_len('len(spectrum_frequency)'), pure=True,
+         note='ASSUMED: scipy.interpolate.interp1d is a pure per-frequency function of the table (values, frequencies) and of the '
+              'frequencies it is evaluated at')
+contract('gnpy.core.elements.Fiber.loss_coef_func', name='gnpy.core.elements.Fiber.loss_coef_func[per-frequency table]',
+         props=['C03', 'C05'], params={'self': FIBER_TAB, 'frequency': vec('n')}, use_at_calls=False,
+         let={'m': 'len(self.params._f_loss_ref)'},
+         requires=[('table_by_increasing_frequency', 'forall(lambda k: self.params._f_loss_ref[k] < self.params._f_loss_ref[k + 1], m - 1)'),
+                   # outside the table the function raises SpectrumError (covered by bounded/raman.py, not by this contract)
+                   ('asked_inside_the_table', 'forall(lambda i: self.params._f_loss_ref[0] <= frequency[i] and '
+                                              'frequency[i] <= self.params._f_loss_ref[m - 1], len(frequency))')],
+         ensures=[('table_read_at_the_asked_frequencies',
+                   'forall(lambda i: at(result, i) == at(self.interpolate_parameter_over_spectrum(self.params._loss_coef, '
+                   'self.params._f_loss_ref, frequency, "Loss Coefficient"), i), len(frequency))')],
+         returns=vec_len('len(frequency)'), pure=True, modifies=[])
